@@ -129,7 +129,7 @@ func occSpecRel(name string, c ContainerKind, nkeys, nfill int, aboveThreshold b
 		}
 		nother := 0
 		if aboveThreshold {
-			thr := policyOf(c).grow
+			thr := growPolicy(c)
 			for j := 0; m.Size() <= thr; j++ {
 				m.Store(fillSpread+j, 2000+j)
 				nother++
